@@ -4,7 +4,18 @@ from common import circ_from_json, v3s, v3p, err_name
 
 
 def asg_to_py(asg):
-    return {k: v3p(v) for k, v in asg}
+    d = {k: v3p(v) for k, v in asg}
+    # every third assignment (chosen by its text) is handed over as a deep copy or after a pickle round trip: its
+    # Undefined values are then equal to, but not the same object as, the module's `Undefined`
+    import zlib
+    k = zlib.crc32(repr(sorted(map(tuple, asg))).encode()) % 6
+    if k == 0:
+        import copy
+        return copy.deepcopy(d)
+    if k == 1:
+        import pickle
+        return pickle.loads(pickle.dumps(d))
+    return d
 
 
 def asg_out(d):
